@@ -86,6 +86,8 @@ def run_full(W, cfg):
     W.ob_true('shape', tuple(int(x) for x in inten.shape) == (Nr, Nc))
     total = W.sum(inten[i, j] for i in range(Nr) for j in range(Nc))
     W.ob('total intensity = input power', total, power)
+    again = o.intensity                  # forming the image a second time from the same wavefront
+    W.ob('total intensity, read a second time', W.sum(again[i, j] for i in range(Nr) for j in range(Nc)), power)
 
 
 def cfg_windows(tier, seed):
